@@ -16,8 +16,11 @@ LEVEL = "fault_enumeration"
 SHARDS = {"quick": 1, "thorough": 16}
 N_QUICK, N_THOROUGH = 250, 3000
 FAULT_KINDS = ["ProgError", "KeyboardInterrupt", "SystemExit", "ProgBaseError", "GeneratorExit", "CancelledError",
-               "RecursionError"]
-EXC_KINDS = {"ProgError", "RecursionError"}  # subclasses of Exception; the rest are BaseException only
+               "RecursionError",
+               # exception types the library itself raises or might be tempted to interpret (missing arguments are
+               # reported as TypeError, lookups fail with KeyError/AttributeError, invalid contracts with ValueError)
+               "TypeError", "KeyError", "AttributeError", "ValueError"]
+EXC_KINDS = {"ProgError", "RecursionError", "TypeError", "KeyError", "AttributeError", "ValueError"}  # Exception subclasses
 RULE = ("for every generated program (function, or class with invariants and method/property/constructor, sync or "
         "async, gated coroutine conditions on async callables; one drawn truth assignment) the checked call is run "
         "once per (injection point x fault kind): injection points = EVERY event of the un-faulted run where the "
@@ -25,7 +28,7 @@ RULE = ("for every generated program (function, or class with invariants and met
         "result), capture, error factory, body, an argument's __repr__ during message building, and for async "
         "callables every gate (throw the fault / CancelledError into the suspended coroutine, or close() it); fault "
         "kinds = {custom Exception, KeyboardInterrupt, SystemExit, custom BaseException, GeneratorExit, "
-        "CancelledError, RecursionError}. After the faulted call a probe suite (the same call under the all-truthy "
+        "CancelledError, RecursionError, TypeError, KeyError, AttributeError, ValueError}. After the faulted call a probe suite (the same call under the all-truthy "
         "and under the violating truth table) runs in the same thread. Oracle: (1) the caller sees the injected "
         "object itself, or the documented wrapper chaining it (ValueError for a failing truth test, RuntimeError for "
         "a failing message computation - Exception kinds only), or - __repr__ faults only - the violation itself; "
